@@ -228,6 +228,18 @@ func Catalogue(syntax string) []Dev {
 			F(ws, "f3").Opts = append(F(ws, "f3").Opts, Option{"default", "ME1"})
 		})
 	}
+	// allow_alias followed by another option of the enum (options are scanned in order)
+	en("ME1=0+alias-then-deprecated", func(e *Enum) {
+		val(e, 1).Number = 0
+		e.Body = append([]any{&Option{"allow_alias", "true"}, &Option{"deprecated", "true"}}, e.Body...)
+	})
+	en("ME1=0+deprecated-then-alias", func(e *Enum) {
+		val(e, 1).Number = 0
+		e.Body = append([]any{&Option{"deprecated", "false"}, &Option{"allow_alias", "true"}}, e.Body...)
+	})
+	en("alias-alone-then-deprecated", func(e *Enum) {
+		e.Body = append([]any{&Option{"allow_alias", "true"}, &Option{"deprecated", "true"}}, e.Body...)
+	})
 	en("alias-alone", func(e *Enum) { e.Body = append([]any{&Option{"allow_alias", "true"}}, e.Body...) })
 	en("alias-false", func(e *Enum) { e.Body = append([]any{&Option{"allow_alias", "false"}}, e.Body...) })
 	en("first=1", func(e *Enum) { val(e, 0).Number = 1; val(e, 1).Number = 2 })
